@@ -166,6 +166,8 @@ pub struct Ctx<'a> {
     pub hash_of_features: FxMap<(Raw, bool, u8, u32), u64>,
     /// C08(e): (board, side, step) -> first state seen with it
     pub rep_of_bss: FxMap<(Raw, bool, u8), GameState>,
+    /// C04 depends on (board, side) only: turn-start positions already judged in this root / configuration
+    pub c04_seen: FxSet<(Raw, bool)>,
 }
 
 impl<'a> Ctx<'a> {
@@ -179,6 +181,7 @@ impl<'a> Ctx<'a> {
             stats: Stats::default(),
             hash_of_features: FxMap::default(),
             rep_of_bss: FxMap::default(),
+            c04_seen: FxSet::default(),
         }
     }
     pub fn on(&self, c: u32) -> bool {
@@ -1003,7 +1006,7 @@ fn c08_state(ctx: &mut Ctx, node: &Node, status: PushPullState) {
 /// Oracles for a state at the start of a turn (roots and states reached by a turn-ending action).
 pub fn turn_start_oracles(ctx: &mut Ctx, node: &Node, via: Option<&Action>) {
     let gs = &node.gs;
-    if ctx.on(C04) {
+    if ctx.on(C04) && ctx.c04_seen.insert((node.snaps[0], node.gold)) {
         ctx.query = "is_terminal";
         let t = gs.is_terminal();
         ctx.query = "";
